@@ -320,7 +320,9 @@ def evaluate(ctx, cases, mlog, ilog, stats, report=True):
             notes = [x[5:] for x in i["extra"] if x.startswith("note ")]
             if g: out.append((c, "guarded", "real cds::gc::DHP disposed an object while a guard protected it: " + "; ".join(notes[:3])))
             if d: out.append((c, "double", "real cds::gc::DHP disposed an object more than once: " + "; ".join(notes[:3])))
-            if po: out.append((c, "poison", "Guard::protect returned an already disposed object: " + "; ".join(notes[:3])))
+            # protect returning a disposed object is NOT a library failure here: the random client programs retire
+            # objects that are still published in a source (no client discipline); counted for information only
+            if po: stats["poison_info"] = stats.get("poison_info", 0) + 1
             if lo or ex: out.append((c, "lost", "after destruction of the DHP singleton some retired object was not disposed exactly once: " + "; ".join(notes[:3])))
         d = conc_check.compare(m2, i)
         if d is not None:
@@ -390,7 +392,7 @@ def run(ctx):
     for c, k, d in found:
         kinds.setdefault(k, []).append((c, d))
     concrete = False
-    for k in ("guarded", "double", "poison", "lost"):
+    for k in ("guarded", "double", "lost"):
         if k in kinds:
             c, d = min(kinds[k], key=lambda x: sum(len(t) for t in x[0]["threads"]))
             ctx.violation(WHAT[k], {"case": strip(c), "observed": d, "impl_monitor": [x for x in ilog[c["id"]]["extra"] if not x.startswith("monitor counts")][:14]})
@@ -411,7 +413,7 @@ def run(ctx):
         il2, dead2 = run_exe_chunks(ctx, icmd, more, "si")
         st2 = {"feat": [], "steps": 0, "diverged": 0, "agree": 0}
         f2 = evaluate(ctx, more, ml2, il2, st2)
-        for k in ("guarded", "double", "poison", "lost"):
+        for k in ("guarded", "double", "lost"):
             hit = [(c, d) for c, kk, d in f2 if kk == k]
             if hit:
                 c, d = min(hit, key=lambda x: sum(len(t) for t in x[0]["threads"]))
@@ -452,7 +454,7 @@ def run(ctx):
         "distinct_event_logs": len(shapes), "impl_steps_compared": stats["steps"], "diverged": stats["diverged"],
         "traces_validated_against_impl": stats["agree"], "corpus_cases": ncorpus, "generator_kinds": kh,
         "feature_histogram": hist, "model_oob_cases_not_run_on_impl": [c["id"] for c in oobc],
-        "impl_crashes": len(crashed),
+        "impl_crashes": len(crashed), "client_misuse_protect_of_disposed_info": stats.get("poison_info", 0),
         "samples": [strip(c) for c in cases[ncorpus:ncorpus + 2]],
         "modelled": "cds::gc::dhp::smr (alloc/free_thread_data, scan, help_scan, destruct), thread_hp_storage, retired_array, hp/retired allocators over cds::intrusive::FreeList, DHP::Guard, DHP::retire/scan",
     })
